@@ -62,6 +62,8 @@ pub struct Flags {
     /// the evaluation only decides a scope predicate (C15): the guards that protect tolerance comparisons are off
     pub scope_only: Cell<bool>,
     pub inexact_ops: Cell<u32>,
+    /// largest magnitude of an operand of a sum formed after an inexact operation (cumulative cancellation)
+    pub max_inexact: Cell<f64>,
 }
 impl Flags {
     pub fn inexact(&self, tol: f64) { if tol > self.tol.get() { self.tol.set(tol); } self.inexact_ops.set(self.inexact_ops.get() + 1); }
